@@ -28,6 +28,36 @@ fn idle(ms: Option<u64>) -> Option<Duration> {
 }
 
 /// Server configuration through builder path `path` (0..=4) with the given timer settings.
+const ORDERS: [[u8; 3]; 6] = [[0, 1, 2], [0, 2, 1], [1, 0, 2], [1, 2, 0], [2, 0, 1], [2, 1, 0]];
+
+/// Applies the three server-side setters in the order `ORDERS[order % 6]` (0 = idle timeout,
+/// 1 = keep-alive, 2 = migration): no setter may undo what an earlier one configured.
+fn apply_server(
+    mut b: wtransport::config::ServerConfigBuilder<wtransport::config::states::WantsTransportConfigServer>,
+    order: u8,
+    idle_ms: Option<u64>,
+    keep_alive_ms: Option<u64>,
+    migration: bool,
+) -> wtransport::config::ServerConfigBuilder<wtransport::config::states::WantsTransportConfigServer> {
+    for step in ORDERS[order as usize % 6] {
+        b = match step {
+            0 => b.max_idle_timeout(idle(idle_ms)).expect("valid idle timeout"),
+            1 => b.keep_alive_interval(idle(keep_alive_ms)),
+            _ => b.allow_migration(migration),
+        };
+    }
+    b
+}
+
+thread_local! {
+    /// order in which `server_cfg*` applies the builder's setters (set per run by the scenario)
+    static SETTER_ORDER: std::cell::Cell<u8> = const { std::cell::Cell::new(0) };
+}
+
+pub fn set_setter_order(o: u8) {
+    SETTER_ORDER.with(|c| c.set(o));
+}
+
 pub fn server_cfg(path: u8, addr: SocketAddr, identity: Identity, idle_ms: Option<u64>, keep_alive_ms: Option<u64>, migration: bool, seed: [u8; 32]) -> ServerConfig {
     server_cfg_d(path, addr, identity, idle_ms, keep_alive_ms, migration, seed, false)
 }
@@ -50,19 +80,13 @@ pub fn server_cfg_d(path: u8, addr: SocketAddr, identity: Identity, idle_ms: Opt
             2 => b.with_custom_transport(identity, tc),
             _ => b.with_custom_tls_and_transport(wtransport::tls::server::build_default_tls_config(identity), tc),
         };
-        let mut cfg = w.allow_migration(!migration).max_idle_timeout(idle(idle_ms)).expect("valid idle timeout").keep_alive_interval(idle(keep_alive_ms)).allow_migration(migration).build();
+        let mut cfg = apply_server(w.allow_migration(!migration), SETTER_ORDER.with(|c| c.get()), idle_ms, keep_alive_ms, migration).build();
         cfg.quic_endpoint_config_mut().rng_seed(Some(seed));
         return cfg;
     }
     let mut cfg = match path {
-        0 => b.with_identity(identity).max_idle_timeout(idle(idle_ms)).expect("valid idle timeout").keep_alive_interval(idle(keep_alive_ms)).allow_migration(migration).build(),
-        1 => b
-            .with_custom_tls(wtransport::tls::server::build_default_tls_config(identity))
-            .max_idle_timeout(idle(idle_ms))
-            .expect("valid idle timeout")
-            .keep_alive_interval(idle(keep_alive_ms))
-            .allow_migration(migration)
-            .build(),
+        0 => apply_server(b.with_identity(identity), SETTER_ORDER.with(|c| c.get()), idle_ms, keep_alive_ms, migration).build(),
+        1 => apply_server(b.with_custom_tls(wtransport::tls::server::build_default_tls_config(identity)), SETTER_ORDER.with(|c| c.get()), idle_ms, keep_alive_ms, migration).build(),
         2 => {
             let mut tc = quinn::TransportConfig::default();
             tc.max_idle_timeout(idle(idle_ms).map(|d| quinn::IdleTimeout::try_from(d).unwrap()));
@@ -172,6 +196,9 @@ pub struct TimerPlan {
     /// bit 0: the client, bit 1: the server configures other timer values first (see `server_cfg_d`)
     #[serde(default)]
     pub decoy: u8,
+    /// order of the server builder's setter calls (see `apply_server`)
+    #[serde(default)]
+    pub order: u8,
 }
 
 const IDLES: [Option<u64>; 8] = [None, Some(1_000), Some(2_500), Some(10_000), Some(30_000), Some(120_000), Some(600_000), Some(3_600_000)];
@@ -203,6 +230,7 @@ pub fn gen_timer(seed: u64, _index: usize) -> TimerPlan {
         server_path: rng.below(5) as u8,
         situation: if rng.coin() { Situation::IdleHealthy } else { Situation::Blackhole { at_ms: *rng.pick(&[0u64, 10, 700, 5_000]) } },
         decoy: if rng.chance_pm(350) { rng.range(1, 3) as u8 } else { 0 },
+        order: rng.below(6) as u8,
     }
 }
 
@@ -214,6 +242,7 @@ pub fn exec_timer(p: &TimerPlan, trace: bool) -> Exec {
     let ns2 = netslot.clone();
     let out = simrt::run(&p.rt, p.seed, Duration::from_secs(6 * 3600), move || async move {
         let p = p2;
+        set_setter_order(p.order_or_zero());
         let net = SimNet::new(p.net.clone(), trace);
         *ns2.lock().unwrap() = Some(net.clone());
         let mut r = Rng::new(p.seed, "c20-endpoints");
@@ -443,6 +472,9 @@ pub struct MigPlan {
     pub allow: bool,
     pub server_path: u8,
     pub rebind_after_ms: u64,
+    /// order of the builder's setter calls (see `apply_server`)
+    #[serde(default)]
+    pub order: u8,
 }
 
 pub fn exec_mig(p: &MigPlan, trace: bool) -> Exec {
@@ -453,6 +485,7 @@ pub fn exec_mig(p: &MigPlan, trace: bool) -> Exec {
     let ns2 = netslot.clone();
     let out = simrt::run(&p.rt, p.seed, Duration::from_secs(600), move || async move {
         let p = p2;
+        set_setter_order(p.order_or_zero());
         let net = SimNet::new(p.net.clone(), trace);
         *ns2.lock().unwrap() = Some(net.clone());
         let mut r = Rng::new(p.seed, "c20-mig");
@@ -538,7 +571,7 @@ impl TypedScenario for C20Mig {
         let mut net = NetCfg::clean(rng.next_u64());
         net.lat_min_us = *rng.pick(&[500u64, 5_000]);
         // build_with_quic_config (path 4) takes migration from the prebuilt quinn config
-        MigPlan { seed, rt: RtKnobs::from_rng(&mut rng), net, allow: index % 2 == 0, server_path: rng.below(5) as u8, rebind_after_ms: *rng.pick(&[0u64, 50, 2_000]) }
+        MigPlan { seed, rt: RtKnobs::from_rng(&mut rng), net, allow: index % 2 == 0, server_path: rng.below(5) as u8, rebind_after_ms: *rng.pick(&[0u64, 50, 2_000]), order: rng.below(6) as u8 }
     }
     fn execute(&self, plan: &MigPlan, trace: bool) -> Exec {
         exec_mig(plan, trace)
@@ -567,6 +600,7 @@ pub fn exec_alpn(p: &AlpnPlan, trace: bool) -> Exec {
     let ns2 = netslot.clone();
     let out = simrt::run(&p.rt, p.seed, Duration::from_secs(120), move || async move {
         let p = p2;
+        set_setter_order(p.order_or_zero());
         let net = SimNet::new(NetCfg::clean(p.seed), trace);
         *ns2.lock().unwrap() = Some(net.clone());
         let mut r = Rng::new(p.seed, "c20-alpn");
@@ -684,6 +718,7 @@ pub fn exec_reload(p: &ReloadPlan, trace: bool) -> Exec {
     let ns2 = netslot.clone();
     let out = simrt::run(&p.rt, p.seed, Duration::from_secs(300), move || async move {
         let p = p2;
+        set_setter_order(p.order_or_zero());
         let net = SimNet::new(p.net.clone(), trace);
         *ns2.lock().unwrap() = Some(net.clone());
         let mut r = Rng::new(p.seed, "c20-reload");
@@ -811,5 +846,26 @@ pub fn def() -> PropertyDef {
         ],
         real_components: vec!["wtransport (config builders, endpoint, driver)", "quinn", "quinn-proto (idle / keep-alive / migration logic)", "rustls", "ring", "tokio scheduler + timer wheel (paused clock)"],
         stub_components: vec!["UDP sockets (SimNet: black holes, NAT rebind)", "OS clock", "raw peer (policy-alpn)"],
+    }
+}
+
+impl TimerPlan {
+    fn order_or_zero(&self) -> u8 {
+        self.order
+    }
+}
+impl MigPlan {
+    fn order_or_zero(&self) -> u8 {
+        self.order
+    }
+}
+impl AlpnPlan {
+    fn order_or_zero(&self) -> u8 {
+        0
+    }
+}
+impl ReloadPlan {
+    fn order_or_zero(&self) -> u8 {
+        0
     }
 }
